@@ -7,7 +7,7 @@ from ..build import plist, pvars, contract
 
 ID = "C03"
 LEVEL = "exploration"
-NSLICES = 32
+NSLICES = 64
 RULE = (
     "E1 exhaustive grid of ordered pairs. Families: lists (L in L<=2, R in L<=1 over T({x,y},{-1,0,1,2},{-2,0,1}): negative "
     "constants give polyhedra away from the origin and separated pairs with gaps above and below the LP's slack of 1; "
